@@ -440,7 +440,9 @@ class Verifier(Calls):
             # the loop writes only fields of objects held by this list (which it does not change itself)
             lv = self.eval_spec_value(st, w[len('elements:'):], self.cur_spec_frame(st), old=st.old)
             region = self.elems_snapshot(st, lv, stmt)
+            self._region_cls = lv.elem[1] if lv.elem[0] == 'ref' else None
         exempt = self.havoc_loop(st, writes, stmt, fresh_bound, region)
+        self._region_cls = None
         saved_fresh_only = st.fresh_only
         if fresh_bound is not None or region is not None:
             st.fresh_only = (fresh_bound, exempt, region)
@@ -485,6 +487,10 @@ class Verifier(Calls):
             s_out.assume(iv.t >= n)
             if self.feasible(s_out):
                 branches.append((s_out, False))
+        if not any(t for _, t in branches):
+            # the invariant (with the guard) is inconsistent in the arbitrary-iteration state: the body would
+            # never be checked.  Recorded; verify() reports it as vacuity instead of `ok`.
+            self.dead_after_call.append('%s@L%d: the body of loop %d is unreachable under its invariant' % (key, line, k))
         for s, taken in branches:
             if not taken:
                 s.trace.append('L%d:exit' % line)
@@ -860,7 +866,10 @@ class Verifier(Calls):
                     self.store_field(st, a, name, self.make_fresh(st, T, name), node)
                     exempt.append(a.t)
                 else:
+                    rc = getattr(self, '_region_cls', None) if region is not None else None
                     for cn, cc in REG.classes.items():
+                        if rc is not None and not (REG.is_subclass(cn, rc) or REG.is_subclass(rc, cn)):
+                            continue    # the loop writes elements of a list[rc] only: other classes keep their fields
                         if name in cc.fields:
                             T = parse_type(cc.fields[name])
                             for j, sort in enumerate(slots(T)):
@@ -950,6 +959,7 @@ class Verifier(Calls):
         self.cur_key = key
         self.obligations = []
         self.unmodelled = []
+        self.dead_after_call = []
         self.npaths = 0
         self.exits = 0
         res = {'key': key, 'status': 'ok', 'reason': None, 'binding': 'bound'}
@@ -1015,6 +1025,9 @@ class Verifier(Calls):
             elif self.exits == 0:
                 res['status'] = 'undecided'
                 res['reason'] = 'vacuous: no exit of the function is reachable under its precondition'
+            elif self.dead_after_call:
+                res['status'] = 'undecided'
+                res['reason'] = 'vacuous: ' + self.dead_after_call[0]
         return res
 
     def entry_state(self, c, m, fn):
